@@ -38,6 +38,15 @@ module Nat =
                | O -> Gt
                | S m' -> compare n' m')
 
+  (** val max : nat -> nat -> nat **)
+
+  let rec max n m =
+    match n with
+    | O -> m
+    | S n' -> (match m with
+               | O -> n
+               | S m' -> S (max n' m'))
+
   (** val min : nat -> nat -> nat **)
 
   let rec min n m =
